@@ -231,8 +231,9 @@ class Check:
             "coverage": self.cov, "assumptions": list(extra_assumptions) + self.assumptions,
             "wall_s": round(wall, 2), "violations": len(self.violations),
         }
-        (VERIF / "evidence").mkdir(exist_ok=True)
-        (VERIF / "evidence" / f"{self.pid}.json").write_text(json.dumps(ev, indent=1, default=str))
+        evdir = Path(os.environ.get("VERIF_EVIDENCE_DIR", str(VERIF / "evidence")))
+        evdir.mkdir(parents=True, exist_ok=True)
+        (evdir / f"{self.pid}.json").write_text(json.dumps(ev, indent=1, default=str))
         for k in self.known:
             print(f"KNOWN-FINDING: property={self.pid} {k}")
         for path, no_input in self.violations:
